@@ -88,7 +88,149 @@ pub fn clock_hex(c: &[u8; 8]) -> String {
     hex(c)
 }
 
+/// Independent bookkeeping for C09 / C14: every message of a Sync, Delay or Pdelay exchange the generator
+/// hands to a port is logged with its timestamps and correction fields; every measurement the
+/// filter receives must equal the IEEE formula of ONE logged exchange (same sender, same sequence id).
+#[derive(Default)]
+pub struct MeasOracle {
+    pub asym: Vec<i128>,                                   // per port, 2^-32 ns
+    pub syncs: Vec<(usize, String, u16, i128)>,            // (port, sender, seq, t2' = recv - corr)  [two-step or one-step]
+    pub one_step: Vec<(usize, String, u16, i128)>,         // (port, sender, seq, t1' = origin)
+    pub fus: Vec<(usize, String, u16, i128)>,              // (port, sender, seq, t1' = origin + corr)
+    pub dreq_ts: Vec<(usize, u16, i128)>,                  // (port, id, t3)
+    pub dresps: Vec<(usize, String, u16, String, i128)>,   // (port, sender, seq, requester, t4' = rx - corr)
+    pub pd_ts: Vec<(usize, u16, i128)>,                    // (port, id, t1)
+    pub pd_resps: Vec<(usize, String, u16, i128, i128, bool)>, // (port, responder, seq, t2 = reqRecv, t4' = recv - corr, two_step)
+    pub pd_fus: Vec<(usize, String, u16, i128)>,           // (port, responder, seq, t3' = origin + corr)
+}
+
+fn be(b: &[u8], off: usize, w: usize) -> u128 {
+    b[off..off + w].iter().fold(0u128, |a, x| (a << 8) | *x as u128)
+}
+
+impl MeasOracle {
+    fn wire_time(b: &[u8], off: usize) -> i128 {
+        ((be(b, off, 6) * 1_000_000_000 + be(b, off + 6, 4)) << 32) as i128
+    }
+    fn pid(b: &[u8], off: usize) -> String {
+        format!("{}:{}", hex(&b[off..off + 8]), be(b, off + 8, 2))
+    }
+    /// log what an op hands to the port (only well-formed frames that pass the version check)
+    pub fn note_op(&mut self, line: &str) {
+        let w: Vec<&str> = line.split_whitespace().filter(|t| !t.starts_with('#')).collect();
+        if w.is_empty() {
+            return;
+        }
+        if w[0] == "INIT" {
+            *self = MeasOracle::default();
+            return;
+        }
+        if w[0] == "PORT" {
+            self.asym.push(w.get(8).and_then(|x| x.parse().ok()).unwrap_or(0));
+            return;
+        }
+        if !w[0].starts_with('P') || w.len() < 3 {
+            return;
+        }
+        let Ok(k) = w[0][1..].parse::<usize>() else { return };
+        match w[1] {
+            "TXTS" if w.len() >= 5 => {
+                let id: u16 = w[3].parse().unwrap_or(0);
+                let ts: i128 = w[w.len() - 1].parse().unwrap_or(0);
+                match w[2] {
+                    "dreq" => self.dreq_ts.push((k, id, ts)),
+                    "pdreq" => self.pd_ts.push((k, id, ts)),
+                    _ => {}
+                }
+            }
+            "GEN" | "EVT" => {
+                let Some(b) = crate::out::unhex(w[2]) else { return };
+                if b.len() < 44 || b[1] & 0x0f != 2 {
+                    return;
+                }
+                let len = be(&b, 2, 2) as usize;
+                if len > b.len() || len < 44 {
+                    return;
+                }
+                let ty = b[0] & 0x0f;
+                let corr = (be(&b, 8, 8) as u64 as i64 as i128) << 16;
+                let src = Self::pid(&b, 20);
+                let seq = be(&b, 30, 2) as u16;
+                let recv: i128 = if w[1] == "EVT" { w.get(3).and_then(|x| x.parse().ok()).unwrap_or(0) } else { 0 };
+                match ty {
+                    0x0 if w[1] == "EVT" => {
+                        self.syncs.push((k, src.clone(), seq, recv - corr));
+                        if b[6] & 0x02 == 0 {
+                            self.one_step.push((k, src, seq, Self::wire_time(&b, 34)));
+                        }
+                    }
+                    0x8 => self.fus.push((k, src, seq, Self::wire_time(&b, 34) + corr)),
+                    0x9 if len >= 54 => self.dresps.push((k, src, seq, Self::pid(&b, 44), Self::wire_time(&b, 34) - corr)),
+                    0x3 if w[1] == "EVT" && len >= 54 => self.pd_resps.push((k, src, seq, Self::wire_time(&b, 34), recv - corr, b[6] & 0x02 != 0)),
+                    0xa if len >= 54 => self.pd_fus.push((k, src, seq, Self::wire_time(&b, 34) + corr)),
+                    _ => {}
+                }
+            }
+            _ => {}
+        }
+    }
+
+    /// every `meas` item of an observation against the log; returns (property, signature, detail) findings
+    pub fn check_obs(&self, own_clock: &[u8; 8], parent: &str, line: &str, obs: &str) -> Vec<(&'static str, String, String)> {
+        let mut out = Vec::new();
+        let first = obs.split(" | ").next().unwrap_or("");
+        for item in first.split(" ; ") {
+            let Some((pk, rest)) = item.split_once(':') else { continue };
+            let Some(r) = rest.strip_prefix("meas ") else { continue };
+            let Ok(k) = pk.trim_start_matches('P').parse::<usize>() else { continue };
+            let f: Vec<&str> = r.split_whitespace().collect();
+            if f.len() != 6 {
+                continue;
+            }
+            let asym = self.asym.get(k - 1).copied().unwrap_or(0);
+            let val = |s: &str| -> Option<i128> { if s == "-" { None } else { s.parse().ok() } };
+            let ev: i128 = f[0].parse().unwrap_or(0);
+            let me = format!("{}:{}", hex(own_clock), k);
+            if let Some(raw) = val(f[4]) {
+                // raw_sync = t2' - t1' - asym for ONE exchange (same sender = parent, same seq)
+                let ok = self.syncs.iter().filter(|s| s.0 == k && s.1 == parent).any(|s| {
+                    let t1s = self.fus.iter().chain(self.one_step.iter()).filter(|x| x.0 == k && x.1 == s.1 && x.2 == s.2);
+                    s.3 == ev && t1s.clone().any(|x| s.3 - x.3 - asym == raw)
+                });
+                if !ok {
+                    out.push(("C09", "sync-measurement-not-one-exchange".to_string(), format!("{line} -> {item}: raw_sync_offset {raw} (event time {ev}) is not (t2 - corr) - (t1 + corr) - asym of any single Sync/Follow_Up exchange of the parent {parent}")));
+                }
+            }
+            if let Some(raw) = val(f[5]) {
+                let ok = self.dreq_ts.iter().filter(|d| d.0 == k).any(|d| {
+                    d.2 == ev && self.dresps.iter().any(|x| x.0 == k && x.1 == parent && x.2 == d.1 && x.3 == me && d.2 - x.4 - asym == raw)
+                });
+                if !ok {
+                    out.push(("C09", "delay-measurement-not-one-exchange".to_string(), format!("{line} -> {item}: raw_delay_offset {raw} is not t3 - (t4 - corr) - asym of any single Delay_Req/Delay_Resp exchange with the parent {parent}")));
+                }
+            }
+            if let Some(pd) = val(f[3]) {
+                // ((t4' - t1) - (t3' - t2)) / 2 truncated toward zero, one request, one responder
+                let ok = self.pd_ts.iter().filter(|d| d.0 == k).any(|d| {
+                    self.pd_resps.iter().filter(|x| x.0 == k && x.2 == d.1).any(|x| {
+                        let t3s: Vec<i128> = if x.5 { self.pd_fus.iter().filter(|y| y.0 == k && y.1 == x.1 && y.2 == d.1).map(|y| y.3).collect() } else { vec![x.3] };
+                        x.4 == ev && t3s.iter().any(|t3| {
+                            let num = (x.4 - d.2) - (t3 - x.3);
+                            num / 2 == pd
+                        })
+                    })
+                });
+                if !ok {
+                    out.push(("C14", "peer-delay-not-one-exchange".to_string(), format!("{line} -> {item}: peer delay {pd} is not ((t4 - corr - t1) - (t3 - t2)) / 2 of one request and one responder")));
+                }
+            }
+        }
+        out
+    }
+}
+
 pub struct Gen<'a> {
+    pub meas: MeasOracle,
     pub ex: InstExec,
     pub out: &'a mut Out,
     pub w: World,
@@ -100,7 +242,12 @@ pub struct Gen<'a> {
 
 impl<'a> Gen<'a> {
     pub fn emit(&mut self, line: String) -> String {
+        self.meas.note_op(&line);
+        let parent_before = self.w.parent.clone();
         let obs = self.ex.exec(&line);
+        for (prop, sig, detail) in self.meas.check_obs(&self.w.own_clock, &parent_before, &line, &obs) {
+            self.out.oracle(prop, &sig, &detail);
+        }
         let kind: String = {
             let ws: Vec<&str> = line.split_whitespace().collect();
             if ws[0].starts_with('P') && ws[0] != "PORT" {
@@ -815,6 +962,7 @@ impl<'a> Gen<'a> {
 pub fn generate(out: &mut Out, rng: &Prng, thorough: bool) {
     let scenarios = if thorough { 6000 } else { 350 };
     let mut g = Gen {
+        meas: MeasOracle::default(),
         ex: InstExec::new(),
         out,
         w: World { own_clock: [0; 8], own_sdo: 0, own_domain: 0, masters: vec![], ports: vec![], parent: String::new(), now: 0, path_trace: false, slave_only: false },
